@@ -425,7 +425,18 @@ class Ovld:
         return self.dispatch.__signature__
 
     def lock(self):
+        # Everything a locked ovld derives from must be locked as well,
+        # otherwise changes there would silently not reach it
         self._locked = True
+        for mixin in self.mixins:
+            mixin.lock()
+
+    def _lock_unlinked_ancestors(self):
+        for mixin in self.mixins:
+            if self not in mixin.children:
+                mixin.lock()
+            else:
+                mixin._lock_unlinked_ancestors()
 
     def _attempt_modify(self):
         if self._locked:
@@ -484,9 +495,7 @@ class Ovld:
         This will also lock this ovld's parent mixins to prevent their
         modification.
         """
-        for mixin in self.mixins:
-            if self not in mixin.children:
-                mixin.lock()
+        self._lock_unlinked_ancestors()
 
         if self.name is None:
             self.name = self.__name__ = f"ovld{self.id}"
